@@ -19,45 +19,14 @@ CHECKS = {}
 PENDING_REASON = "no check registered yet in this round (construction in progress, see DESIGN.md section 6); not a claim that model checking cannot apply"
 NOT_APPLICABLE = {}
 
-# ---------------------------------------------------------------------------------------------------------------------
-CHECKS["C01"] = {
-    "units": st_units("c01", "checks/c01_simplex_tree.cpp"),
-    "level": "model_checking",
-    "engine": "E1 history explorer",
-    "technique": "explicit-state BFS of operation histories on the real Simplex_tree with reference-model comparison at every state (closure = all finite histories over the universe)",
-    "level_text": ("every finite history over a 3-vertex universe with 3 filtration values (thorough: 4 vertices, 2 values) is covered "
-                   "by a fixpoint of the reachable canonical-state set, for 8 option sets; at every state all read interfaces are "
-                   "compared with a reference complex for every simplex. This is the level the for-all-histories quantifier needs; "
-                   "larger universes are not covered"),
-    "level_note": "trusted: the 150-line reference complex, the canonical key (validated by merge validation in the thorough tier), g++/ASan/UBSan",
-    "rule": ("explicit-state BFS over operation histories of the real Simplex_tree (one fresh object per history), "
-             "deduplicated on (reference-model state, dimension_, dimension_to_be_lowered_, filtration cache present); "
-             "after every transition every read interface is compared with the reference complex for every simplex "
-             "of the universe; distinct_nontrivial = distinct canonical states reached"),
-    "bounds": {
-        "quick": "labels {0,1,2}, values {0,1,2}: closure (all finite histories) for 8 option sets; relabelled universe {0,2,5}",
-        "thorough": "labels {0,1,2,3}, values {0,1}: closure or completed depth under the time budget, 8 option sets; merge validation",
-    },
-    "assumptions": [
-        "documented preconditions only: insert_simplex needs present facets and a value keeping the filtration monotone; "
-        "remove_maximal_simplex needs a maximal simplex; insert_graph needs an empty tree; contiguous_vertices option sets "
-        "only see histories keeping labels 0..k-1",
-        "small scope: at most 4 vertices, 3 filtration values",
-    ],
-    "runs": {
-        "quick": (
-            [{"unit": "c01_opt%d" % i, "args": ["--labels", "0,1,2", "--F", "0,1,2", "--workers", "2", "--budget", "200"],
-              "cores": 2} for i in range(8)] +
-            [{"unit": "c01_opt%d" % i, "args": ["--labels", "0,2,5", "--F", "0,1", "--workers", "1", "--budget", "200"],
-              "cores": 1} for i in (0, 1, 4, 5, 6, 7)]
-        ),
-        "thorough": (
-            [{"unit": "c01_opt%d" % i, "args": ["--labels", "0,1,2,3", "--F", "0,1", "--workers", "2", "--budget", "1500",
-                                                  "--validate", "200"],
-              "cores": 2, "timeout": 2400} for i in range(8)] +
-            [{"unit": "c01_opt%d" % i, "args": ["--labels", "0,1,2", "--F", "0,1,2", "--workers", "2", "--budget", "600",
-                                                  "--validate", "500"],
-              "cores": 2, "timeout": 1200} for i in range(8)]
-        ),
-    },
-}
+
+import glob as _glob
+import importlib.util as _ilu
+import os as _os
+
+HELPERS = {"st_units": st_units, "ST_OPTS": ST_OPTS, "COMMON_FLAGS": COMMON_FLAGS}
+for _p in sorted(_glob.glob(_os.path.join(_os.path.dirname(_os.path.abspath(__file__)), "reg", "c*.py"))):
+    _spec = _ilu.spec_from_file_location("reg_" + _os.path.basename(_p)[:-3], _p)
+    _m = _ilu.module_from_spec(_spec)
+    _spec.loader.exec_module(_m)
+    _m.register(CHECKS, HELPERS)
